@@ -15,23 +15,45 @@ pub struct Group {
     pub deleted: bool,
 }
 
+/// Grouping of memory-map lines as the statements describe it: contiguous lines merge when they
+/// carry the same name, or when the line is the loader's inaccessible reserved gap (anonymous,
+/// private, no permissions) directly after, or between two parts of, an executable file mapping.
 pub fn groups(w: &World) -> Vec<Group> {
     let mut out: Vec<Group> = Vec::new();
-    for r in &w.regions {
-        let is_path = r.name.0.contains(&b'/');
+    let rs = &w.regions;
+    let mut i = 0usize;
+    while i < rs.len() {
+        let r = &rs[i];
+        let is_gap = |x: &RegionSpec| x.name.0.is_empty() && x.perms == "---p" && x.offset == 0;
         if let Some(g) = out.last_mut() {
-            if g.end == r.start && !g.name.is_empty() && g.name == r.name.0 {
+            let contiguous = g.end == r.start;
+            if contiguous && !g.name.is_empty() && g.name == r.name.0 {
                 g.end = r.end();
                 g.exec |= r.perms.as_bytes()[2] == b'x';
+                i += 1;
                 continue;
             }
+            if contiguous && !g.name.is_empty() && is_gap(r) {
+                // directly after an executable file mapping
+                let after_exec = g.exec;
+                // or between two parts of the same file
+                let between = rs.get(i + 1).map(|n| n.start == r.end() && n.name.0 == g.name).unwrap_or(false);
+                if after_exec || between {
+                    g.end = r.end();
+                    i += 1;
+                    continue;
+                }
+            }
         }
-        if is_path {
-            out.push(Group { start: r.start, end: r.end(), offset: r.offset, exec: r.perms.as_bytes()[2] == b'x', name: r.name.0.clone(), deleted: r.deleted });
-        } else {
-            // sentinel so that non-adjacent same-name lines do not merge through it
-            out.push(Group { start: r.start, end: r.end(), offset: 0, exec: false, name: Vec::new(), deleted: false });
-        }
+        out.push(Group {
+            start: r.start,
+            end: r.end(),
+            offset: r.offset,
+            exec: r.perms.as_bytes()[2] == b'x',
+            name: if r.name.0.contains(&b'/') { r.name.0.clone() } else { Vec::new() },
+            deleted: r.deleted,
+        });
+        i += 1;
     }
     out.retain(|g| !g.name.is_empty());
     out
@@ -129,7 +151,7 @@ pub fn check(sc: &Scenario, res: &RunResult) -> Vec<Violation> {
         if m.cv != want_cv {
             out.push(v("C08", "module-build-id", format!("{}: debug record {:02x?}, expected BpEL + {:02x?}", String::from_utf8_lossy(&g.name), &m.cv[..m.cv.len().min(12)], &id[..id.len().min(8)])));
         }
-        let so = file_elf.as_ref().and_then(|e| e.soname()).or_else(|| mem_elf.as_ref().and_then(|e| e.soname_at(g.start)));
+        let so = file_elf.as_ref().and_then(|e| e.soname()).or_else(|| mem_elf.as_ref().and_then(|e| e.soname_mem(g.start)));
         let want = expected_name(&g, so.clone());
         if m.name.as_deref() != Some(want.as_str()) {
             out.push(v("C08", "module-name", format!("{:?} != {:?} (path {:?}, soname {:?}, offset {:#x}, exec {})", m.name, want, String::from_utf8_lossy(&g.name), so, g.offset, g.exec)));
